@@ -171,6 +171,15 @@ Theorem C14_flatten : forall A (src : nat -> list A) n fuel,
 Proof. exact (@flatten_bound). Qed.
 Print Assumptions C14_flatten.
 
+(* flatten by any depth k'+1 (also deeper than the nesting): no item flattens to nothing, at most n pulls *)
+Theorem C14_flatten_by : forall k' (src : nat -> val) n fuel,
+  (forall i, vflat_item k' (src i) <> []) -> n <= fuel ->
+  exists k, k <= n /\
+    run_until (stage_machine (SFlattenBy (S k'))) src n fuel
+    = Done (firstn n (multis (fun _ x => vflat_item k' x) src n)) k.
+Proof. exact (fun k' => multi_bound (fun _ x => vflat_item k' x)). Qed.
+Print Assumptions C14_flatten_by.
+
 (* group consecutive: proved only for sources whose neighbours differ (every group a singleton);
    missing: the general statement relative to the positions where the runs end *)
 Theorem C14_group_consecutive_partial : forall I (eqb : I -> I -> bool) src n,
